@@ -227,6 +227,21 @@ func (p *c9prog) step(c *fw.Ctx) {
 			p.created++
 		})
 	}
+	if T.K == pt.Bool || T.K == pt.Str {
+		// a function result is a value of its own: returning err / errmsg does not hand out the global
+		add("assign-from-func-returning-global", func() {
+			g := "err"
+			if T.K == pt.Str {
+				g = "errmsg"
+			}
+			p.funcs["ge"] = pt.Func{Name: "ge", Ret: T, Body: []pt.Stmt{pt.Return{X: pt.V(g)}}}
+			dst := p.vars[c.Choose(len(p.vars), "dst")]
+			n := p.fresh("arr")
+			p.stmts = append(p.stmts, pt.Assign{Target: pt.V(dst), X: pt.C("ge")}, pt.InferDecl{Name: n, X: pt.A(k.v1)}, pt.Assign{Target: pt.Index{X: pt.V(n), I: pt.N(0)}, X: pt.C("ge")})
+			p.obs = append(p.obs, pt.V(n))
+			p.created++
+		})
+	}
 	if T.K == pt.Bool {
 		add("err-in-literals", func() {
 			a, m := p.fresh("arr"), p.fresh("mp")
